@@ -4,6 +4,7 @@
 import Driver.CoreWire
 import Driver.H_core
 import MxlVerif.Model.C11
+import MxlVerif.Model.C07Expr
 open Lean Mxl Mxl.Wire Mxl.C11
 namespace Driver.H_c11
 
@@ -66,17 +67,45 @@ def headsJ (bad : List String) (c : NContent) : Json :=
                 | .ok s => .arr (((genProgram s).build.map Call.head).map headJ).toArray
                 | .error _ => Json.null)]
 
+def sampleArgs (n : Nat) : List (List Rat) :=
+  [(List.range n).map (fun i => ((i + 2 : Nat) : Rat)),
+   (List.range n).map (fun i => 1 / ((i + 2 : Nat) : Rat) + (if i % 2 == 0 then 1 else 3)),
+   (List.range n).map (fun i => ((2 * i + 1 : Nat) : Rat) / 2)]
+
+/-- the `return` expressions of the emitted definitions, read by the expression reader of `Mxl.C07Expr` (Python
+    spelling) at sample arguments, against the Lean program's definition under the same key (`Def.call`) -/
+def defChecks (p : Program) (texts : List (String × List String × String)) : List Json :=
+  texts.map fun ktx =>
+    match p.defs.lookup ktx.1 with
+    | none => Json.str "no-such-def"
+    | some d =>
+      match Mxl.C07Expr.lexText false true ktx.2.2 with
+      | none => Json.str "outside-fragment"
+      | some ts =>
+        if ktx.2.1 != d.params then Json.str "other-parameters"
+        else Json.bool ((sampleArgs d.params.length).all fun vs =>
+          Mxl.C07Expr.evalToks (fun x => (d.params.zip vs).lookup x) ts == some (d.call vs))
+
+def jDefText (j : Json) : Except String (String × List String × String) := do
+  match (← jArr j) with
+  | [k, ps, t] => pure ((← jStr k), (← jList jStr ps), (← jStr t))
+  | _ => throw "defText"
+
 def handle (j : Json) : Except String Json := do
   let fns ← jList jPyFn (← field j "fns")
   let c ← jNContent fns (← field j "content")
   let bad ← jList jStr (fieldD j "bad" (.arr #[]))
   let qs ← jArr (fieldD j "queries" (.arr #[]))
   let prog := resJ programJ ((toSymbolicRepr bad c).bind genMxlpy)
+  let texts ← jList jDefText (fieldD j "defTexts" (.arr #[]))
+  let checks : Json := match (toSymbolicRepr bad c).bind genMxlpy with
+    | .ok p => .arr (defChecks p texts).toArray
+    | .error _ => .arr #[]
   let orig ← qs.mapM (Driver.H_core.query c.toContent)
   match roundTrip bad c with
-  | .error e => pure (Json.mkObj [("heads", headsJ bad c), ("program", prog), ("hyp", .bool (refsResolve c)), ("hypInput", .bool (keysInjective c && argsNoDup c)), ("hypSrc", .bool (refsSrcOk c)), ("hypKeys", .bool (keysInjective c)), ("rt", Json.mkObj [("err", errJ e)]), ("orig", .arr orig.toArray)])
+  | .error e => pure (Json.mkObj [("defChecks", checks), ("heads", headsJ bad c), ("program", prog), ("hyp", .bool (refsResolve c)), ("hypInput", .bool (keysInjective c && argsNoDup c)), ("hypSrc", .bool (refsSrcOk c)), ("hypKeys", .bool (keysInjective c)), ("rt", Json.mkObj [("err", errJ e)]), ("orig", .arr orig.toArray)])
   | .ok c' => do
     let rs ← qs.mapM (Driver.H_core.query c')
-    pure (Json.mkObj [("heads", headsJ bad c), ("program", prog), ("hyp", .bool (refsResolve c)), ("hypInput", .bool (keysInjective c && argsNoDup c)), ("hypSrc", .bool (refsSrcOk c)), ("hypKeys", .bool (keysInjective c)), ("rt", Json.mkObj [("ok", .arr rs.toArray)]), ("orig", .arr orig.toArray)])
+    pure (Json.mkObj [("defChecks", checks), ("heads", headsJ bad c), ("program", prog), ("hyp", .bool (refsResolve c)), ("hypInput", .bool (keysInjective c && argsNoDup c)), ("hypSrc", .bool (refsSrcOk c)), ("hypKeys", .bool (keysInjective c)), ("rt", Json.mkObj [("ok", .arr rs.toArray)]), ("orig", .arr orig.toArray)])
 
 end Driver.H_c11
